@@ -287,6 +287,41 @@ func genC06(r *rand.Rand, tier string) []Case {
 		}
 		cases = append(cases, c)
 	}
+	// dozens of small tables piled up (a cycle that selects far more inputs than usual, from the oldest on): values in the
+	// oldest tables, their tombstones in tables created much later
+	np := 1
+	if tier == "thorough" {
+		np = 6
+	}
+	for i := 0; i < np; i++ {
+		var keys [][]byte
+		for k := 0; k < 6; k++ {
+			keys = append(keys, []byte(fmt.Sprintf("key%02d", k)))
+		}
+		c := &c06Case{Keys: keys}
+		c.Opts = dbOpts{MemstoreBytes: 1 << 30, Threshold: r.Intn(2), MaxSize: 5 << 30, RatioPct: 100, WBuf: 4096, RBuf: 4096}
+		for k := 0; k < 3; k++ {
+			c.Steps = append(c.Steps, dbStep{Op: "put", K: keys[k], V: []byte(fmt.Sprintf("oldest-%d", k))})
+			if k < 2 {
+				c.Steps = append(c.Steps, dbStep{Op: "rotate"})
+			}
+		}
+		c.Steps = append(c.Steps, dbStep{Op: "rotate"})
+		ntab := 33 + r.Intn(8)
+		for t := 0; t < ntab; t++ {
+			c.Steps = append(c.Steps, dbStep{Op: "put", K: keys[3+t%3], V: []byte(fmt.Sprintf("filler-%d", t))})
+			if t == ntab/2 {
+				c.Steps = append(c.Steps, dbStep{Op: "del", K: keys[0]})
+			}
+			if t == ntab-3 {
+				c.Steps = append(c.Steps, dbStep{Op: "del", K: keys[1]})
+			}
+			c.Steps = append(c.Steps, dbStep{Op: "rotate"})
+		}
+		o := c.Opts
+		c.Steps = append(c.Steps, dbStep{Op: "compact"}, dbStep{Op: "compact"}, dbStep{Op: "reopen", Opts: &o}, dbStep{Op: "compact"})
+		cases = append(cases, c)
+	}
 	// a run of small old tables merged while two or more NEWER tables (over the size limit, few tombstones) stay outside
 	// the run and hold different versions of the same keys: the live tables must keep their age order
 	nn := 4
